@@ -15,7 +15,8 @@ PROPERTY = "C09"
 LEVEL = "exploration"
 TECHNIQUE = "property-based testing of generated service scenarios under virtual time; laws over the service call log (each call tagged with its activation index)"
 RULE = (
-    "Generated machines: state `v` invokes a service (plain callable on both engines; coroutine with a virtual-time "
+    "Generated machines: state `v` (atomic, compound or parallel; entered through its own id, a descendant target or its "
+    "history child) invokes a service (plain callable on both engines; coroutine with a virtual-time "
     "duration and outcome return/raise/never on the async engine; a child machine that completes after a delay or at "
     "once) with declared input, with/without onDone/onError; events GO (leave v), BACK (return), RE (re-enter v), SLOW (an "
     "action sleeping in virtual time), PING; histories place sends, batches queued behind a slow action and stop() "
